@@ -152,19 +152,45 @@ func checkC14(c *Ctx) {
 		}
 	}
 
-	// ---- C14.6 a subnet carries the port flag of the group it was configured in: the flag stored with a parsed subnet is
+	// ---- C14.7 a subnet carries the port flag of the group it was configured in: the flag stored with a parsed subnet is
 	// the RandomizeDstPort of the message its CIDR strings come from, and that message is a group of the configuration
 	// itself (not a message assembled from several groups, whose single flag is whichever group was merged last)
-	r.Rule("C14.6", "a parsed subnet's port flag is its own configured group's flag", 2)
-	if f := c.fn("C14.6", ph, "", "parseSubnets"); f != nil && len(f.Params) == 1 {
+	r.Rule("C14.7", "a parsed subnet's port flag is its own configured group's flag", 2)
+	if f := c.fn("C14.7", ph, "", "parseSubnets"); f != nil && len(f.Params) == 1 {
 		n := 0
 		for _, st := range fieldStores(f, "phantoms.phantomNet", "supportRandomPort") {
 			n++
 			okk := pathOf(st.Val) == P(f, 0)+".GetRandomizeDstPort()"
-			r.Check(okk, "C14.6", "parseSubnets: flag = the group's own GetRandomizeDstPort()", st.Pos(), fnName(f), firstN(pathOf(st.Val), 60), "the port flag stored with a subnet is not the flag of the group the subnet was read from")
+			r.Check(okk, "C14.7", "parseSubnets: flag = the group's own GetRandomizeDstPort()", st.Pos(), fnName(f), firstN(pathOf(st.Val), 60), "the port flag stored with a subnet is not the flag of the group the subnet was read from")
 		}
 		if n == 0 {
-			r.Unk("C14.6", "parseSubnets: supportRandomPort store", f.Pos(), fnName(f), "not found")
+			// a thin wrapper: parseSubnets(g) = helper(g.GetSubnets(), g.GetRandomizeDstPort()) and the helper stores its
+			// flag parameter with every subnet it parses from its list parameter
+			for _, ci := range callsIn(f, func(string, *ssa.CallCommon) bool { return true }) {
+				call, isCall := ci.(*ssa.Call)
+				if !isCall {
+					continue
+				}
+				h := helperCallee(f, &call.Call)
+				if h == nil || len(call.Call.Args) != 2 {
+					continue
+				}
+				for _, st := range fieldStores(h, "phantoms.phantomNet", "supportRandomPort") {
+					n++
+					prm, isP := st.Val.(*ssa.Parameter)
+					okk := isP && len(h.Params) == 2 && prm == h.Params[1] &&
+						pathOf(call.Call.Args[0]) == P(f, 0)+".GetSubnets()" && pathOf(call.Call.Args[1]) == P(f, 0)+".GetRandomizeDstPort()"
+					if okk {
+						if sites, asValue := callersOf(h); asValue || len(sites) != 1 {
+							okk = false // another caller could pair a list with a foreign flag
+						}
+					}
+					r.Check(okk, "C14.7", "parseSubnets: flag = the group's own GetRandomizeDstPort()", st.Pos(), fnName(h), "helper(g.GetSubnets(), g.GetRandomizeDstPort()) stores its flag parameter", "the port flag stored with a subnet is not the flag of the group the subnet was read from")
+				}
+			}
+		}
+		if n == 0 {
+			r.Unk("C14.7", "parseSubnets: supportRandomPort store", f.Pos(), fnName(f), "not found")
 		}
 		nCalls := 0
 		for _, g := range c.funcsOfPkgs(ph) {
@@ -177,12 +203,12 @@ func checkC14(c *Ctx) {
 				}
 				nCalls++
 				arg := ci.Common().Args[0]
-				r.Check(!messageBuiltHere(arg, 0, map[ssa.Value]bool{}), "C14.6", fnName(g)+": parseSubnets is handed a group of the configuration itself", ci.Pos(), fnName(g), firstN(pathOf(arg), 60),
+				r.Check(!messageBuiltHere(arg, 0, map[ssa.Value]bool{}), "C14.7", fnName(g)+": parseSubnets is handed a group of the configuration itself", ci.Pos(), fnName(g), firstN(pathOf(arg), 60),
 					"parseSubnets is handed "+firstN(pathOf(arg), 50)+", a message built in this function, not a configured group: subnets of several groups get one common port flag (the last one merged), so a phantom of a group that forbids a random port is returned with randomisation granted")
 			}
 		}
 		if nCalls == 0 {
-			r.Unk("C14.6", "parseSubnets call sites", f.Pos(), fnName(f), "none found")
+			r.Unk("C14.7", "parseSubnets call sites", f.Pos(), fnName(f), "none found")
 		}
 	}
 
@@ -249,7 +275,20 @@ func checkC14(c *Ctx) {
 		}
 		for _, st := range fieldStores(f, "phantoms.phantomNet", "supportRandomPort") {
 			src := pathOf(st.Val)
-			r.Check(strings.HasSuffix(src, ".GetRandomizeDstPort()"), "C14.6", fnName(f)+": phantomNet.supportRandomPort <- "+firstN(src, 50), st.Pos(), fnName(f), "from the subnet block's randomize_dst_port",
+			okFlag := strings.HasSuffix(src, ".GetRandomizeDstPort()")
+			if prm, isP := st.Val.(*ssa.Parameter); isP && !okFlag {
+				// the flag handed in by the callers: every one of them passes a block's GetRandomizeDstPort()
+				idx := paramIndex(f, prm)
+				sites, asValue := callersOf(f)
+				okFlag = !asValue && len(sites) > 0
+				for _, sc := range sites {
+					if idx >= len(sc.Call.Args) || !strings.HasSuffix(pathOf(sc.Call.Args[idx]), ".GetRandomizeDstPort()") {
+						okFlag = false
+					}
+				}
+				src = "parameter " + src + " (every caller passes a block's GetRandomizeDstPort())"
+			}
+			r.Check(okFlag, "C14.6", fnName(f)+": phantomNet.supportRandomPort <- "+firstN(src, 50), st.Pos(), fnName(f), "from the subnet block's randomize_dst_port",
 				"the subnet's port-randomisation flag is not taken from its configuration")
 		}
 	}
